@@ -42,17 +42,24 @@ def run(ctx):
         ctx.violations.append(dict(what=what, key=what, input=inp, observed=obs))
 
     for k in range(n):
-        kind = rescorr.TABLE_KINDS[k % len(rescorr.TABLE_KINDS)]
+        kinds9 = [t_ for t_ in rescorr.TABLE_KINDS if t_ != "shifted"]   # C09 is about tables with positive properties
+        kind = kinds9[k % len(kinds9)]
         tb0 = rescorr.make_table(kind, rng, True)
         p = tb0["pressure"]
         variant = k % 3          # 0 computed diffusivity, 1 user-supplied diffusivity, 2 simple-liquid class
         user_alpha = variant == 1
         simple = variant == 2
         tb = {c: v.copy() for c, v in tb0.items()}
+        both = False
         if user_alpha:
             tb["alpha"] = 1 / (tb["compressibility"] * tb["viscosity"])
-            for c in ("compressibility", "viscosity", "z-factor"):
-                del tb[c]
+            both = (k // 3) % 2 == 1
+            if both:
+                # the user's own diffusivity ADDED to a full PVT table: the user's column is the one that must be honoured
+                tb["alpha"] = tb["alpha"] * 3.7 * (1 + 0.3 * np.sin(np.arange(len(p))))
+            else:
+                for c in ("compressibility", "viscosity", "z-factor"):
+                    del tb[c]
         mode = (k // 3) % 4      # every (variant, p_i mode) pair occurs within 12 consecutive cases
         j = int(rng.integers(1, len(p) - 1))
         p_i = float(p[j]) if mode == 0 else float(rng.uniform(p[1], p[-1])) if mode in (1, 2) else float(rng.choice([p[0] - 1.0, p[-1] + 1.0, p[-1] * 2]))
@@ -62,7 +69,7 @@ def run(ctx):
             for v in arg.values():
                 v.setflags(write=False)
         snap = snapshot(arg)
-        inp = dict(table_kind=kind, rows=len(p), p_i=p_i, user_alpha=bool(user_alpha), simple=bool(simple),
+        inp = dict(table_kind=kind, rows=len(p), p_i=p_i, user_alpha=bool(user_alpha), full_columns_too=bool(both), simple=bool(simple),
                    container=["DataFrame", "dict", "dict of read-only arrays"][int(container)],
                    table={c: [float(x) for x in v] for c, v in tb.items()})
         cls = FlowPropertiesSimple if (simple and not user_alpha) else FlowProperties
@@ -104,6 +111,9 @@ def run(ctx):
                 if not np.allclose(got, want, rtol=1e-10):
                     bad("diffusivity at table nodes is not 1/(compressibility x viscosity)", inp, float(np.abs(got / want - 1).max()))
             else:
+                got = np.asarray(fp.alpha(ms), float)
+                if not np.allclose(got, tb["alpha"], rtol=1e-10):
+                    bad("with a user-supplied diffusivity column the lookup at table nodes is not that column", inp, float(np.abs(got / tb["alpha"] - 1).max()))
                 if mode == 0 and not dom.relclose(m_i, 1.0, 1e-12):
                     bad("with user-supplied diffusivity m_i is not 1 at a table node", inp, m_i)
                 a, b = tb0["pseudopressure"][np.searchsorted(p, p_i) - 1], tb0["pseudopressure"][min(np.searchsorted(p, p_i), len(p) - 1)]
